@@ -129,6 +129,14 @@ def r10_3(rep):
     al = [n for n in b.walk() if n["k"] == "Assign" and strip(n["l"]).get("k") == "Local" and
           (b.ty(n["l"]) or "").replace("&", "") == "std::option::Option<usize>" and opaque(n)]
     rep.check(any("Layout::align" in b.canon(n["r"], 6) for n in al), "blob-align", "an opaque item is aligned to its own layout.align", b.loc(b.root))
+    # ... and that alignment is the only layout attribute of the blob: `repr(packed)` next to `repr(align(N))` is rejected (E0587),
+    # and the packed test (`already_packed`) walks the real C fields, which the blob does not have
+    pk = [c for c in b.calls(lambda x: x["k"] == "Call" and (x.get("callee") or "").endswith("attributes::repr_list"))
+          if any(y["k"] == "Lit" and isinstance(y.get("v"), str) and "packed" in y["v"] for y in b.walk(c)) or
+          any(y["k"] == "Local" and b.local_init(y["id"]) is not None and "packed" in b.canon(b.local_init(y["id"]), 6) for y in b.walk(c))]
+    rep.need(pk, "emission of `repr(C, packed..)` in CompInfo::codegen")
+    for c in pk:
+        rep.check(not_opaque(c), "packed-not-for-opaque", "`repr(C, packed)` is only written for non-opaque items (the blob carries `repr(align(N))`)", b.loc(c))
 
 
 @RULES.rule("R10.4", "traits are not derived through a non-allowlisted (blocklisted) type unless the user vouches", floor=4)
@@ -287,3 +295,14 @@ def r10_9(rep):
     rep.check(guarded, "sizedness:unanalysed-type-reads-as-zero-sized@lookup_sizedness",
               "lookup_sizedness answers `ZeroSized` for any type without an entry, including blocklisted types the analysis never visits; "
               "nothing on the way to `Base::requires_storage` checks the blocklist or the layout", lk.loc(lk.root))
+
+
+@RULES.rule("R10.10", "facts that flow THROUGH an opaque type (vtable, destructor, floats) still re-queue its users (shared with C07 R7.1)", floor=40)
+def r10_10(rep):
+    """An opaque type is a blob, but what the blob hides still decides facts about the types built on it: a class deriving from an
+    opaque class that inherits a vptr must not get a second `vtable_`.  The analyses read those innards for opaque items, so the
+    dependency edges have to exist for every way an item can be opaque — also `--opaque-type` / the annotation, which only
+    `Item::is_opaque` knows (`Type::is_opaque` does not): with the weaker test `D : Mid(opaque) : Base(virtual)` gets a spurious
+    `vtable_` and size 32 instead of 24."""
+    import c07
+    c07.r7_1(rep)
